@@ -13,6 +13,7 @@ Decided
       computed features are written at the positions of the stored spikes within the request
   +   a buffer that receives stored values holds them exactly: float64 (NumPy default) or the dtype of the store, never a narrower type (the loader accepts float64 stores)
   +   the column table is flattened and the looked-up positions reshaped back in the same (row-major) order: order='K' / 'A' / 'F' on one side is a violation
+  +   the loaders drop the row / column table only when its file is absent (`x = None` only inside the handler of the read)
 Not decided: PCA numerics, value equality.
 """
 import ast
@@ -314,6 +315,36 @@ def run(ctx):
     if nrep == 0:
         ctx.holds('C06.A0', gf, 'no index-space conflict in get_features (3 configurations), get_template_features (2), _project_pcs', 'feature access')
     ctx.part('C06.A1', value_buffers)
+    ctx.part('C06.A1', tables_kept)
+
+
+def tables_kept(ctx):
+    """The loaders hand the row (spike-id) and column tables they read to the accessors: a table is None only when its FILE is absent (the `except IOError` of the
+    read). A table dropped under another condition (e.g. "one row per spike, so the store is complete") makes the accessors address rows by spike id although the
+    rows are in the table's order."""
+    repo = ctx.repo
+    cls = repo.cls(M, 'TemplateModel')
+    for nm in ('_load_features', '_load_template_features'):
+        fi = repo.lookup_method(cls, nm)
+        if fi is None:
+            raise AnchorMissing('TemplateModel.%s' % nm)
+        bun = [c for c in fi.calls() if dotted(c.func) == 'Bunch' and q.kwarg(c, 'rows') is not None]
+        if not bun:
+            ctx.undecided('C06.A1', fi, '%s: the returned store (Bunch(data=, cols=, rows=)) was not recognised' % nm)
+            continue
+        for field in ('rows', 'cols'):
+            v = q.kwarg(bun[0], field)
+            if not isinstance(v, ast.Name):
+                ctx.undecided('C06.A1', fi, '%s: the %s table of the returned store is `%s`' % (nm, field, unparse(v) if v is not None else 'absent'))
+                continue
+            nones = [a for a in fi.nodes(ast.Assign) if any(isinstance(t, ast.Name) and t.id == v.id for t in a.targets) and isinstance(a.value, ast.Constant) and a.value.value is None]
+            stray = [a for a in nones if not any(isinstance(x, ast.ExceptHandler) for x in fi.ancestors(a))]
+            reads = [a for a in fi.nodes(ast.Assign) if any(isinstance(t, ast.Name) and t.id == v.id for t in a.targets) and isinstance(a.value, ast.Call)]
+            ctx.tri(bool(reads) and not stray, bool(stray), 'C06.A1', fi, (stray or reads or [bun[0]])[0],
+                    '%s: the %s table is dropped only when its file is absent' % (nm, field),
+                    '%s: the %s table that was read is discarded under a condition other than "file absent" (`%s = None` outside the handler of the read): the accessors then address the '
+                    'store by spike id / channel position although its entries are in the table\'s order' % (nm, field, v.id),
+                    '%s: how the %s table is read was not recognised' % (nm, field))
 
 
 def value_buffers(ctx):
